@@ -52,6 +52,7 @@ def make_machine(stats):
             self.exc_depth2 = False
             self.false_under_true = False
             self.leaked = []
+            self.block_fault = False
 
         # -- helpers
         def active(self):
@@ -194,41 +195,62 @@ def make_machine(stats):
             if any(a is not b for a, b in zip(before, after)):
                 self.fail("guard state after a call tree is not the state before it")
 
-        @rule(conds=st.lists(st.integers(0, 1), min_size=1, max_size=3), has_else=st.booleans(), loop=st.booleans())
-        def block_walk(self, conds, has_else, loop):
-            self.hist.append(["block", conds, has_else, loop])
+        @rule(conds=st.lists(st.integers(0, 1), min_size=1, max_size=3), has_else=st.booleans(), loop=st.booleans(),
+              fault=st.sampled_from([None, None, "spurious", "missing", "unmergeable"]))
+        def block_walk(self, conds, has_else, loop, fault=None):
+            """fault: the user's block is ill-formed, so that the statement which CLOSES a branch raises while merging
+            (a later branch defines a variable the first did not, or omits one, or assigns something that cannot be
+            merged): that exception leaves the region too, and the state must be the one before the block"""
+            self.hist.append(["block", conds, has_else, loop, fault])
             before = self.triple()
             ns, rt = self.ns, self.rt
             ctx = ns.br.BranchingValues()
             ctx.x = rt.PrivVal(1)
-            if loop:
-                w = ns.br.WhileContext(ns.bo.PrivValBool(conds[0]), ctx)
-                self.check_inside([conds[0]])
-                acc = conds[0]
-                for c in conds[1:]:
-                    ctx.x = ctx.x + 1
-                    w._while(ns.bo.PrivValBool(c))
-                    acc = acc & c
-                    self.check_inside([acc])
-                w.end()
-            else:
-                i = ns.br.IfContext(ns.bo.PrivValBool(conds[0]), ctx)
-                self.check_inside([conds[0]])
-                ctx.x = ctx.x + 1
-                none_before = 1 - conds[0]
-                for c in conds[1:]:
-                    i._elif(lambda c=c: ns.bo.PrivValBool(c))
-                    self.check_inside([none_before & c])
-                    ctx.x = ctx.x + 2
-                    none_before = none_before & (1 - c)
-                if has_else:
-                    i._else()
-                    self.check_inside([none_before])
-                    ctx.x = ctx.x + 3
-                i.end()
+
+            def branch_body(k, inc):
+                ctx.x = ctx.x + inc
+                if fault == "spurious" and k >= 1:
+                    ctx.y = rt.PrivVal(5)
+                elif fault == "missing" and k == 0:
+                    ctx.y = rt.PrivVal(5)
+                elif fault == "unmergeable" and k == len(conds) - 1:
+                    ctx.x = object()
+            try:
+                if loop:
+                    w = ns.br.WhileContext(ns.bo.PrivValBool(conds[0]), ctx)
+                    self.check_inside([conds[0]])
+                    acc = conds[0]
+                    for k, c in enumerate(conds[1:]):
+                        branch_body(k, 1)
+                        w._while(ns.bo.PrivValBool(c))
+                        acc = acc & c
+                        self.check_inside([acc])
+                    if fault:
+                        branch_body(len(conds) - 1, 1)
+                    w.end()
+                else:
+                    i = ns.br.IfContext(ns.bo.PrivValBool(conds[0]), ctx)
+                    self.check_inside([conds[0]])
+                    branch_body(0, 1)
+                    none_before = 1 - conds[0]
+                    for k, c in enumerate(conds[1:]):
+                        i._elif(lambda c=c: ns.bo.PrivValBool(c))
+                        self.check_inside([none_before & c])
+                        branch_body(k + 1, 2)
+                        none_before = none_before & (1 - c)
+                    if has_else:
+                        i._else()
+                        self.check_inside([none_before])
+                        branch_body(len(conds), 3)
+                    i.end()
+            except (RuntimeError, TypeError, AttributeError, ValueError) as e:
+                if not fault or core.library_frame(e) is None:
+                    raise
+                self.block_fault = True
             after = self.triple()
             if any(a is not b for a, b in zip(before, after)):
-                self.fail("guard state after a block context is not the state before it")
+                self.fail("guard state after a block context%s is not the state before it" % (
+                    " whose closing statement raised (%s)" % fault if fault else ""))
 
         # -- invariant
         def check_inside(self, extra):
@@ -272,6 +294,8 @@ def make_machine(stats):
                 labels.append("exception-at-depth>=2")
             if self.false_under_true:
                 labels.append("false-under-true")
+            if self.block_fault:
+                labels.append("block-closing-statement-raised")
             for h in self.hist:
                 labels.append("rule:" + h[0])
             stats.case({"history": self.hist} if nt else None, nt, set(labels))
@@ -304,7 +328,7 @@ def replay(case):
             elif h[0] == "call_tree":
                 m.call_tree(totuple(h[1]), h[2])
             elif h[0] == "block":
-                m.block_walk(h[1], h[2], h[3])
+                m.block_walk(h[1], h[2], h[3], h[4] if len(h) > 4 else None)
             m.hist.pop()     # the rule appended it again
             m.hist.append(h)
             m.check_inside([])
